@@ -10,15 +10,18 @@
         (execute_ast folds), with the corollaries latest binding and value-not-reference;
      4. names: several words, lower-cased key (assign_name_loop), case-insensitive matching
         (info_eq_token), closest-then-longest choice (pick_variable), find_location;
-     5. the parser only ever builds `AAssignment name e` with an assignment-free e, hence the
-        line-level theorems about Api.execute_text for ALL lines, and about whole texts
-        (SessionLemmas.eval_lines).
+     5. the parser only ever builds `AAssignment name toks e` with an assignment-free e
+        (ParserPure) and never touches the session, hence the line-level theorems about
+        Api.execute_text for ALL lines, and about whole texts (SessionLemmas.eval_lines).
+   State of the code: the variable is registered by the interpreter AFTER the right-hand side
+   evaluated (no variable without a value is ever left behind by a failing line) and the key of
+   a name is its lower-cased words joined by one space (distinct names never share a variable).
    Polymorphic in the number algebra; no axioms. *)
 From SC.Model Require Import Base Num Types Config Case Match Post Parser Items Interp Rules.
 From SC.Model Require Import Chrono UiTokens Rx RuleFns Format Lexer Api.
 From SC.Model Require Corr.
 From SC.Spec Require Import Expr Env.
-From SC.Proofs Require Import C02_Parser SessionLemmas.
+From SC.Proofs Require Import C02_Parser ParserPure SessionLemmas.
 From Coq Require Import Arith Lia.
 
 Local Open Scope nat_scope.
@@ -79,18 +82,12 @@ Notation calculate_item := (calculate_item bexec).
 (* 2. The interpreter and the variables                                *)
 (* ================================================================== *)
 
-(* what the parser does to the session when it reads `name = ...` (assignment.rs:58-70):
-   an unknown name is registered at PARSE time, holding no value *)
-Definition register (name : str) (toks : list (token F)) (vs : vars F) : vars F :=
-  if assoc_mem name vs then vs
-  else assoc_insert name {| v_tokens := toks; v_data := ANone |} vs.
-
-(* what the interpreter does after the right-hand side evaluated (compiler/mod.rs:87-91) *)
-Definition store (name : str) (v : ast F) (vs : vars F) : vars F :=
-  match assoc name vs with
-  | Some vi => assoc_insert name {| v_tokens := v_tokens vi; v_data := v |} vs
-  | None => vs
-  end.
+(* what the interpreter does after the right-hand side evaluated (compiler/mod.rs:87-92):
+   the value is stored; an existing variable keeps its name tokens, a new one is registered
+   now with the name tokens the parser put into the assignment node *)
+Definition store (name : str) (toks : list (token F)) (v : ast F) (vs : vars F) : vars F :=
+  assoc_insert name {| v_tokens := match assoc name vs with Some vi => v_tokens vi | None => toks end;
+                       v_data := v |} vs.
 
 (* the abstraction: the value a name denotes *)
 Definition value_of (vs : vars F) (k : str) : option (ast F) := option_map (@v_data F) (assoc k vs).
@@ -99,80 +96,25 @@ Lemma var_value_value_of vs k :
   var_value vs k = match value_of vs k with Some v => v | None => ANone end.
 Proof. unfold var_value, value_of. destruct (assoc k vs); reflexivity. Qed.
 
-Lemma register_mem name toks vs : assoc_mem name (register name toks vs) = true.
+Lemma store_same name toks v vs :
+  assoc name (store name toks v vs) =
+  Some {| v_tokens := match assoc name vs with Some vi => v_tokens vi | None => toks end; v_data := v |}.
+Proof. apply assoc_insert_same. Qed.
+
+Lemma store_other name toks v vs k : k <> name -> assoc k (store name toks v vs) = assoc k vs.
+Proof. intro H. apply assoc_insert_other, H. Qed.
+
+Lemma store_mem name toks v vs k :
+  assoc_mem k (store name toks v vs) = str_eqb k name || assoc_mem k vs.
+Proof. apply assoc_mem_insert. Qed.
+
+Lemma var_value_store name toks v vs k :
+  var_value (store name toks v vs) k = if str_eqb k name then v else var_value vs k.
 Proof.
-  unfold register. destruct (assoc_mem name vs) eqn:E; [exact E|].
-  rewrite assoc_mem_insert, str_eqb_refl. reflexivity.
+  unfold store, var_value. rewrite assoc_insert_lookup. destruct (str_eqb k name); reflexivity.
 Qed.
 
-(* registration never touches an existing variable *)
-Lemma register_existing name toks vs k :
-  assoc_mem k vs = true -> assoc k (register name toks vs) = assoc k vs.
-Proof.
-  intro Hk. unfold register. destruct (assoc_mem name vs) eqn:E; [reflexivity|].
-  apply assoc_insert_other. intro H. subst. congruence.
-Qed.
-
-Lemma register_other name toks vs k : k <> name -> assoc k (register name toks vs) = assoc k vs.
-Proof.
-  intro H. unfold register. destruct (assoc_mem name vs); [reflexivity|].
-  apply assoc_insert_other, H.
-Qed.
-
-Lemma register_new name toks vs :
-  assoc_mem name vs = false ->
-  assoc name (register name toks vs) = Some {| v_tokens := toks; v_data := ANone |}.
-Proof. intro H. unfold register. rewrite H. apply assoc_insert_same. Qed.
-
-Lemma register_old name toks vs : assoc_mem name vs = true -> register name toks vs = vs.
-Proof. intro H. unfold register. rewrite H. reflexivity. Qed.
-
-(* ... and it is invisible to the interpreter: a variable without a value reads as None, which
-   is what an unknown name reads as *)
-Lemma var_value_register name toks vs k : var_value (register name toks vs) k = var_value vs k.
-Proof.
-  unfold register. destruct (assoc_mem name vs) eqn:E; [reflexivity|].
-  unfold var_value. rewrite assoc_insert_lookup.
-  destruct (str_eqb k name) eqn:Ek; [|reflexivity].
-  apply str_eqb_eq in Ek. subst. unfold assoc_mem in E. destruct (assoc name vs); [discriminate|reflexivity].
-Qed.
-
-Lemma store_same name v vs vi :
-  assoc name vs = Some vi ->
-  assoc name (store name v vs) = Some {| v_tokens := v_tokens vi; v_data := v |}.
-Proof. intro H. unfold store. rewrite H. apply assoc_insert_same. Qed.
-
-Lemma store_other name v vs k : k <> name -> assoc k (store name v vs) = assoc k vs.
-Proof.
-  intro H. unfold store. destruct (assoc name vs); [|reflexivity]. apply assoc_insert_other, H.
-Qed.
-
-Lemma store_mem name v vs k : assoc_mem k (store name v vs) = assoc_mem k vs.
-Proof.
-  unfold store. destruct (assoc name vs) eqn:E; [|reflexivity].
-  rewrite assoc_mem_insert. destruct (str_eqb k name) eqn:Ek; [|reflexivity].
-  apply str_eqb_eq in Ek. subst. unfold assoc_mem. rewrite E. reflexivity.
-Qed.
-
-Lemma var_value_store name v vs k :
-  assoc_mem name vs = true ->
-  var_value (store name v vs) k = if str_eqb k name then v else var_value vs k.
-Proof.
-  intro Hm. unfold assoc_mem in Hm. unfold store, var_value.
-  destruct (assoc name vs) as [vi|] eqn:E; [|discriminate].
-  rewrite assoc_insert_lookup. destruct (str_eqb k name); reflexivity.
-Qed.
-
-(* ---- assignment-free syntax trees: what a right-hand side is ---- *)
-Fixpoint pure (a : ast F) : bool :=
-  match a with
-  | ABinary l _ r => pure l && pure r
-  | APrefixUnary _ e => pure e
-  | AAssignment _ _ => false
-  | _ => true
-  end.
-
-(* the value of an assignment-free tree, reading names through [rho] only *)
+(* the value of an assignment-free tree ([pure], ParserPure), reading names through [rho] only *)
 Fixpoint eval_pure (cfg : config F) (rho : str -> ast F) (a : ast F) : res (@ires F) :=
   match a with
   | ABinary l op r =>
@@ -190,7 +132,7 @@ Fixpoint eval_pure (cfg : config F) (rho : str -> ast F) (a : ast F) : res (@ire
         end
       end
     end
-  | AAssignment _ e => eval_pure cfg rho e
+  | AAssignment _ _ e => eval_pure cfg rho e
   | AVariable name => Ok (IOk (rho name))
   | AItem _ => Ok (IOk a)
   | AMonth _ => Ok (IOk a)
@@ -216,7 +158,7 @@ Fixpoint eval_pure (cfg : config F) (rho : str -> ast F) (a : ast F) : res (@ire
 Theorem exec_pure : forall cfg (a : ast F) vs, pure a = true ->
   execute_ast cfg vs a = do r <- eval_pure cfg (var_value vs) a; Ok (r, vs).
 Proof.
-  intros cfg a. induction a as [| f | i | m | l IHl op r IHr | op e IH | n e IH | v | n];
+  intros cfg a. induction a as [| f | i | m | l IHl op r IHr | op e IH | n nt e IH | v | n];
     intros vs Hp; cbn [pure] in Hp; try discriminate; try reflexivity.
   - apply andb_true_iff in Hp as [Hl Hr].
     cbn [Interp.execute_ast eval_pure]. rewrite (IHl vs Hl).
@@ -234,7 +176,7 @@ Qed.
 Lemma eval_pure_ext cfg rho rho' (a : ast F) :
   (forall k, rho k = rho' k) -> eval_pure cfg rho a = eval_pure cfg rho' a.
 Proof.
-  intro H. induction a as [| f | i | m | l IHl op r IHr | op e IH | n e IH | v | n];
+  intro H. induction a as [| f | i | m | l IHl op r IHr | op e IH | n nt e IH | v | n];
     cbn [eval_pure]; try reflexivity.
   - rewrite IHl, IHr. reflexivity.
   - rewrite IH. reflexivity.
@@ -242,97 +184,99 @@ Proof.
   - rewrite H. reflexivity.
 Qed.
 
-(* the assignment line, for every assignment-free right-hand side: the computed value is stored
-   only after the expression evaluated; a failing right-hand side leaves the session exactly
-   as it was *)
-Theorem exec_assign : forall cfg vs name (e : ast F), pure e = true ->
-  execute_ast cfg vs (AAssignment name e) =
+(* the assignment line, for every assignment-free right-hand side: the variable is created /
+   updated only after the expression evaluated; a failing right-hand side leaves the session
+   exactly as it was *)
+Theorem exec_assign : forall cfg vs name toks (e : ast F), pure e = true ->
+  execute_ast cfg vs (AAssignment name toks e) =
   do r <- eval_pure cfg (var_value vs) e;
-  Ok (r, match r with IOk v => store name v vs | IErr _ => vs end).
+  Ok (r, match r with IOk v => store name toks v vs | IErr _ => vs end).
 Proof.
-  intros cfg vs name e Hp. cbn [Interp.execute_ast]. rewrite (exec_pure cfg e vs Hp).
-  destruct (eval_pure cfg (var_value vs) e) as [[v|m]|st]; reflexivity.
+  intros cfg vs name toks e Hp. cbn [Interp.execute_ast]. rewrite (exec_pure cfg e vs Hp).
+  destruct (eval_pure cfg (var_value vs) e) as [[v|m]|st]; cbn [bind]; try reflexivity.
+  unfold store. destruct (assoc name vs); reflexivity.
 Qed.
 
 (* lookup of the name gives the value; all other names are unchanged *)
-Theorem assign_binds : forall cfg vs name vi (e : ast F) v,
-  pure e = true -> assoc name vs = Some vi ->
-  eval_pure cfg (var_value vs) e = Ok (IOk v) ->
-  exists vs', execute_ast cfg vs (AAssignment name e) = Ok (IOk v, vs') /\
-    assoc name vs' = Some {| v_tokens := v_tokens vi; v_data := v |} /\
+Theorem assign_binds : forall cfg vs name toks (e : ast F) v,
+  pure e = true -> eval_pure cfg (var_value vs) e = Ok (IOk v) ->
+  exists vs', execute_ast cfg vs (AAssignment name toks e) = Ok (IOk v, vs') /\
+    assoc name vs' =
+      Some {| v_tokens := match assoc name vs with Some vi => v_tokens vi | None => toks end;
+              v_data := v |} /\
     (forall k, k <> name -> assoc k vs' = assoc k vs).
 Proof.
-  intros cfg vs name vi e v Hp Hvi Hev. exists (store name v vs).
-  rewrite (exec_assign cfg vs name e Hp), Hev. cbn [bind].
-  split; [reflexivity|]. split; [apply store_same, Hvi|]. intros k Hk. apply store_other, Hk.
+  intros cfg vs name toks e v Hp Hev. exists (store name toks v vs).
+  rewrite (exec_assign cfg vs name toks e Hp), Hev. cbn [bind].
+  split; [reflexivity|]. split; [apply store_same|]. intros k Hk. apply store_other, Hk.
 Qed.
 
-Theorem assign_failed : forall cfg vs name (e : ast F) m,
+Theorem assign_failed : forall cfg vs name toks (e : ast F) m,
   pure e = true -> eval_pure cfg (var_value vs) e = Ok (IErr m) ->
-  execute_ast cfg vs (AAssignment name e) = Ok (IErr m, vs).
+  execute_ast cfg vs (AAssignment name toks e) = Ok (IErr m, vs).
 Proof.
-  intros cfg vs name e m Hp Hev. rewrite (exec_assign cfg vs name e Hp), Hev. reflexivity.
+  intros cfg vs name toks e m Hp Hev. rewrite (exec_assign cfg vs name toks e Hp), Hev. reflexivity.
 Qed.
 
-(* whatever an assignment-free or assignment line does: no other name changes, and no
-   variable is created or removed by the interpreter *)
+(* the trees of lines: a use, or an assignment of an assignment-free tree *)
 Definition line_ast (a : ast F) : bool :=
-  match a with AAssignment _ e => pure e | _ => pure a end.
+  match a with AAssignment _ _ e => pure e | _ => pure a end.
 
 Definition assigned (a : ast F) : option str :=
-  match a with AAssignment n _ => Some n | _ => None end.
+  match a with AAssignment n _ _ => Some n | _ => None end.
 
+(* whatever a line does: no other name changes, no variable disappears, an error changes nothing,
+   a use changes nothing, a successful assignment is exactly [store] *)
 Theorem exec_line_frame : forall cfg vs (a : ast F) r vs',
   line_ast a = true -> execute_ast cfg vs a = Ok (r, vs') ->
   (forall k, assigned a <> Some k -> assoc k vs' = assoc k vs) /\
-  (forall k, assoc_mem k vs' = assoc_mem k vs) /\
+  (forall k, assoc_mem k vs = true -> assoc_mem k vs' = true) /\
   match r with
   | IErr _ => vs' = vs
-  | IOk v => match assigned a with
-             | Some n => vs' = store n v vs
-             | None => vs' = vs
+  | IOk v => match a with
+             | AAssignment n toks _ => vs' = store n toks v vs
+             | _ => vs' = vs
              end
   end.
 Proof.
   intros cfg vs a r vs' Hl H.
-  destruct a as [| f | i | m | l op r0 | op e | n e | v | n];
+  destruct a as [| f | i | m | l op r0 | op e | n nt e | v | n];
     try (cbn [line_ast] in Hl; rewrite (exec_pure cfg _ vs Hl) in H;
          destruct (eval_pure cfg (var_value vs) _) as [[v0|m0]|st]; cbn [bind] in H; try discriminate;
-         injection H as <- <-; cbn [assigned]; repeat split; reflexivity).
-  cbn [line_ast] in Hl. rewrite (exec_assign cfg vs n e Hl) in H.
+         injection H as <- <-; cbn [assigned]; repeat split; auto).
+  cbn [line_ast] in Hl. rewrite (exec_assign cfg vs n nt e Hl) in H.
   destruct (eval_pure cfg (var_value vs) e) as [[v0|m0]|st]; cbn [bind] in H; try discriminate;
     injection H as <- <-; cbn [assigned].
   - split; [|split; [|reflexivity]].
     + intros k Hk. apply store_other. intro E. subst. contradiction.
-    + intro k. apply store_mem.
-  - repeat split; reflexivity.
+    + intros k Hk. rewrite store_mem, Hk. apply orb_true_r.
+  - repeat split; auto.
 Qed.
 
-(* a binding holds a value, not a reference: `y = x` stores the CURRENT value of x, and a
-   later re-assignment of x (any line that assigns a name other than y) leaves y alone *)
-Theorem copy_is_value : forall cfg vs x y vx vy,
-  assoc x vs = Some vx -> assoc y vs = Some vy ->
-  execute_ast cfg vs (AAssignment y (AVariable x)) =
-    Ok (IOk (v_data vx), store y (v_data vx) vs) /\
-  assoc y (store y (v_data vx) vs) = Some {| v_tokens := v_tokens vy; v_data := v_data vx |} /\
+(* a binding holds a value, not a reference: `y = x` stores the CURRENT value of x (creating y
+   if need be), and a later re-assignment of x (any line that assigns a name other than y)
+   leaves y alone *)
+Theorem copy_is_value : forall cfg vs x y ty vx,
+  assoc x vs = Some vx ->
+  execute_ast cfg vs (AAssignment y ty (AVariable x)) =
+    Ok (IOk (v_data vx), store y ty (v_data vx) vs) /\
+  value_of (store y ty (v_data vx) vs) y = Some (v_data vx) /\
   forall (a : ast F) r vs2, line_ast a = true -> assigned a <> Some y ->
-    execute_ast cfg (store y (v_data vx) vs) a = Ok (r, vs2) ->
-    assoc y vs2 = Some {| v_tokens := v_tokens vy; v_data := v_data vx |}.
+    execute_ast cfg (store y ty (v_data vx) vs) a = Ok (r, vs2) ->
+    value_of vs2 y = Some (v_data vx).
 Proof.
-  intros cfg vs x y vx vy Hx Hy. split; [|split].
+  intros cfg vs x y ty vx Hx. split; [|split].
   - rewrite exec_assign by reflexivity. cbn [eval_pure bind]. unfold var_value. rewrite Hx. reflexivity.
-  - apply store_same, Hy.
+  - unfold value_of. rewrite store_same. reflexivity.
   - intros a r vs2 Hl Hne H.
     destruct (exec_line_frame cfg _ a r vs2 Hl H) as (Hfr & _ & _).
-    rewrite (Hfr y Hne). apply store_same, Hy.
+    unfold value_of. rewrite (Hfr y Hne), store_same. reflexivity.
 Qed.
 
 (* ================================================================== *)
 (* 3. Refinement of the reference semantics (Spec/Env.v)               *)
 (* ================================================================== *)
 
-(* statements of the reference semantics over assignment-free trees; the model side of a
-   statement: the parser's registration followed by the interpreter *)
 Definition rho_of (look : str -> option (ast F)) (k : str) : ast F :=
   match look k with Some v => v | None => ANone end.
 
@@ -342,10 +286,10 @@ Definition spec_eval (cfg : config F) (look : str -> option (ast F)) (e : ast F)
 Definition spec_value (r : res (@ires F)) : option (ast F) :=
   match r with Ok (IOk v) => Some v | _ => None end.
 
-(* one line of the model: [toks] are the name tokens the parser records for a new variable *)
+(* one line of the model: [toks] are the name tokens the parser puts into the assignment node *)
 Definition mstep (cfg : config F) (vs : vars F) (st : stmt (ast F) * list (token F)) : res (@ires F * vars F) :=
   match st with
-  | (Assign n e, toks) => execute_ast cfg (register n toks vs) (AAssignment n e)
+  | (Assign n e, toks) => execute_ast cfg vs (AAssignment n toks e)
   | (Use e, _) => execute_ast cfg vs e
   end.
 
@@ -362,8 +306,7 @@ Fixpoint mrun (cfg : config F) (vs : vars F) (p : list (stmt (ast F) * list (tok
 Definition stmt_pure (st : stmt (ast F)) : bool :=
   match st with Assign _ e => pure e | Use e => pure e end.
 
-(* the abstraction relation: every name denotes the same value on both sides (a name without
-   a value denotes None on both sides) *)
+(* the abstraction relation: every name denotes the same value on both sides *)
 Definition Rel (vs : vars F) (en : env (ast F)) : Prop :=
   forall k, rho_of (fun k => lookup k en) k = var_value vs k.
 
@@ -377,16 +320,15 @@ Theorem step_refines : forall cfg vs en st toks x,
   Rel (snd x) (fst (step (spec_eval cfg) spec_value en st)).
 Proof.
   intros cfg vs en st toks [r vs'] Hp HR H. destruct st as [n e|e]; cbn [stmt_pure mstep] in *.
-  - rewrite (exec_assign cfg _ n e Hp) in H.
-    assert (Hev : eval_pure cfg (var_value (register n toks vs)) e = spec_eval cfg (fun k => lookup k en) e).
-    { unfold spec_eval. apply eval_pure_ext. intro k. rewrite var_value_register. symmetry. apply HR. }
+  - rewrite (exec_assign cfg _ n toks e Hp) in H.
+    assert (Hev : eval_pure cfg (var_value vs) e = spec_eval cfg (fun k => lookup k en) e).
+    { unfold spec_eval. apply eval_pure_ext. intro k. symmetry. apply HR. }
     rewrite Hev in H. cbn [step fst snd].
     destruct (spec_eval cfg (fun k => lookup k en) e) as [[v|m]|st]; cbn [bind] in H; try discriminate;
       injection H as <- <-; cbn [spec_value].
-    + split; [reflexivity|]. intro k.
-      rewrite (var_value_store n v _ k (register_mem n toks vs)), var_value_register.
+    + split; [reflexivity|]. intro k. rewrite var_value_store.
       unfold rho_of. cbn [lookup]. destruct (str_eqb k n); [reflexivity|]. apply HR.
-    + split; [reflexivity|]. intro k. rewrite var_value_register. apply HR.
+    + split; [reflexivity|exact HR].
   - rewrite (exec_pure cfg e vs Hp) in H.
     assert (Hev : eval_pure cfg (var_value vs) e = spec_eval cfg (fun k => lookup k en) e).
     { unfold spec_eval. apply eval_pure_ext. intro k. symmetry. apply HR. }
@@ -417,6 +359,33 @@ Proof.
     cbn [fst snd] in *. split; [rewrite Ho; reflexivity|exact HR2].
 Qed.
 
+(* with the variables created by the interpreter the abstraction is exact: a name is bound in
+   the session iff the reference environment binds it (no variable without a binding) *)
+Definition RelDom (vs : vars F) (en : env (ast F)) : Prop :=
+  forall k, lookup k en = value_of vs k.
+
+Lemma RelDom_Rel vs en : RelDom vs en -> Rel vs en.
+Proof. intros H k. unfold rho_of. rewrite H, var_value_value_of. reflexivity. Qed.
+
+Theorem step_refines_exact : forall cfg vs en st toks x,
+  stmt_pure st = true -> RelDom vs en -> mstep cfg vs (st, toks) = Ok x ->
+  RelDom (snd x) (fst (step (spec_eval cfg) spec_value en st)).
+Proof.
+  intros cfg vs en st toks [r vs'] Hp HR H.
+  pose proof (RelDom_Rel _ _ HR) as HR0. destruct st as [n e|e]; cbn [stmt_pure mstep] in *.
+  - rewrite (exec_assign cfg _ n toks e Hp) in H.
+    assert (Hev : eval_pure cfg (var_value vs) e = spec_eval cfg (fun k => lookup k en) e).
+    { unfold spec_eval. apply eval_pure_ext. intro k. symmetry. apply HR0. }
+    rewrite Hev in H. cbn [step fst snd].
+    destruct (spec_eval cfg (fun k => lookup k en) e) as [[v|m]|st]; cbn [bind] in H; try discriminate;
+      injection H as <- <-; cbn [spec_value]; [|exact HR].
+    intro k. unfold value_of, store. rewrite assoc_insert_lookup. cbn [lookup].
+    destruct (str_eqb k n); [reflexivity|]. apply HR.
+  - rewrite (exec_pure cfg e vs Hp) in H.
+    destruct (eval_pure cfg (var_value vs) e) as [r0|st]; cbn [bind] in H; try discriminate.
+    injection H as <- <-. exact HR.
+Qed.
+
 (* later lines see the latest binding: after any program the value a name denotes is that of
    the last assignment to it that evaluated (the initial one if there was none) *)
 Theorem latest_binding : forall cfg p vs en outs vs' n,
@@ -431,39 +400,37 @@ Proof.
   rewrite <- (HR' n). unfold rho_of. rewrite run_latest, Ho. reflexivity.
 Qed.
 
-
 (* ================================================================== *)
 (* 4. Names                                                            *)
 (* ================================================================== *)
 
-(* ---- 4.1 several words: `w1 .. wn = e` assigns the key lowercase(w1 ++ .. ++ wn) and a new
-   variable remembers the name tokens ---- *)
+(* ---- 4.1 several words: `w1 .. wn = e` assigns the key "lower(w1) lower(w2) .. lower(wn)"
+   (joined by ONE space) and the node carries the name tokens ---- *)
 Definition name_toks (ws : list str) : list (token F) := map (@TText F) ws.
-Definition name_key (ws : list str) : str := to_lowercase (concat_str ws).
+Definition key_tail (ws : list str) : str := flat_map (fun w => 32%N :: to_lowercase w) ws.
+Definition name_key (ws : list str) : str :=
+  match ws with [] => [] | w :: r => to_lowercase w ++ key_tail r end.
 Definition massign_toks (ws : list str) (e : expr F) : list (token F) :=
   name_toks ws ++ TOperator OP_EQ :: toks_of e.
 
 Lemma nth_opt_app_here {A} (pre : list A) x r : nth_opt (pre ++ x :: r) (length pre) = Some x.
 Proof. induction pre as [|y pre IH]; [reflexivity|exact IH]. Qed.
 
-Lemma to_lowercase_app a b : to_lowercase (a ++ b) = to_lowercase a ++ to_lowercase b.
-Proof. unfold to_lowercase. apply flat_map_app. Qed.
-
 Lemma name_loop : forall (ws : list str) (pre : list (token F)) rhs vs idx fuel name,
   length pre = S idx -> length ws < fuel ->
   assign_name_loop fuel (pre ++ name_toks ws ++ TOperator OP_EQ :: rhs) vs idx name =
-  (S (S (idx + length ws)), name ++ to_lowercase (concat_str ws)).
+  (S (S (idx + length ws)), name ++ key_tail ws).
 Proof.
   induction ws as [|w ws IH]; intros pre rhs vs idx fuel name Hpre Hf;
     (destruct fuel as [|fuel]; [cbn [length] in Hf; lia|]); cbn [assign_name_loop name_toks map app].
   - rewrite <- Hpre, nth_opt_app_here. cbn [N.eqb OP_EQ Pos.eqb]. rewrite Hpre.
-    cbn [concat_str to_lowercase flat_map length]. rewrite app_nil_r, Nat.add_0_r. reflexivity.
+    cbn [key_tail flat_map length]. rewrite app_nil_r, Nat.add_0_r. reflexivity.
   - rewrite <- Hpre, nth_opt_app_here. rewrite Hpre.
     change (pre ++ TText w :: map (@TText F) ws ++ TOperator OP_EQ :: rhs)
       with (pre ++ [TText w] ++ name_toks ws ++ TOperator OP_EQ :: rhs).
     rewrite app_assoc. rewrite IH.
-    + cbn [token_to_string concat_str length]. rewrite to_lowercase_app, app_assoc.
-      f_equal. lia.
+    + cbn [token_to_string key_tail flat_map length]. fold (key_tail ws).
+      rewrite <- app_assoc. cbn [app]. f_equal. lia.
     + rewrite app_length. cbn [length]. lia.
     + cbn [length] in Hf. lia.
 Qed.
@@ -477,8 +444,7 @@ Qed.
 
 Theorem multiword_assign_parse : forall vs w ws (e : expr F), wf e = true ->
   parse (massign_toks (w :: ws) e) vs =
-  (PAst (AAssignment (name_key (w :: ws)) (ast_of e)),
-   register (name_key (w :: ws)) (name_toks (w :: ws)) vs).
+  (PAst (AAssignment (name_key (w :: ws)) (name_toks (w :: ws)) (ast_of e)), vs).
 Proof.
   intros vs w ws e Hwf. unfold parse, parse_assignment, massign_toks.
   rewrite find_eq_name_toks. cbv iota beta.
@@ -505,17 +471,110 @@ Proof.
      (parse_fuel ((TText w :: map (@TText F) ws) ++ TOperator OP_EQ :: toks_of e)) Hwf eq_refl) as Hp.
   rewrite app_nil_r in Hp. rewrite Hp.
   2:{ unfold parse_fuel. rewrite app_length. cbn [length]. lia. }
-  replace (to_lowercase w ++ to_lowercase (concat_str ws)) with (name_key (w :: ws))
-    by (unfold name_key; cbn [concat_str]; apply to_lowercase_app).
   pose proof (ast_of_not_none e) as Hn.
-  unfold register. destruct (ast_of e); try congruence; reflexivity.
+  unfold name_key. destruct (ast_of e); try congruence; reflexivity.
+Qed.
+
+(* ---- 4.1b distinct names never share a variable: the key determines the lower-cased words
+   (words are texts without a space) ---- *)
+Definition nosp (x : str) : Prop := ~ In 32%N x.
+
+Lemma key_tail_shape ws : key_tail ws = [] \/ exists t, key_tail ws = 32%N :: t.
+Proof. destruct ws as [|w r]; [left; reflexivity|right; eexists; reflexivity]. Qed.
+
+Lemma split_at_space : forall (a a' r r' : str),
+  nosp a -> nosp a' ->
+  (r = [] \/ exists t, r = 32%N :: t) -> (r' = [] \/ exists t, r' = 32%N :: t) ->
+  a ++ r = a' ++ r' -> a = a' /\ r = r'.
+Proof.
+  unfold nosp. induction a as [|c a IH]; intros [|c' a'] r r' Ha Ha' Hr Hr' E; cbn [app] in E.
+  - split; [reflexivity|exact E].
+  - exfalso. destruct Hr as [->|[t ->]]; [discriminate|]. injection E as <- _. apply Ha'. left. reflexivity.
+  - exfalso. destruct Hr' as [->|[t ->]]; [discriminate|]. injection E as -> _. apply Ha. left. reflexivity.
+  - injection E as -> E.
+    destruct (IH a' r r') as [-> ->]; auto.
+    + intro H. apply Ha. right. exact H.
+    + intro H. apply Ha'. right. exact H.
+Qed.
+
+Lemma key_tail_inj : forall ws ws',
+  Forall (fun w => nosp (to_lowercase w)) ws -> Forall (fun w => nosp (to_lowercase w)) ws' ->
+  key_tail ws = key_tail ws' -> map to_lowercase ws = map to_lowercase ws'.
+Proof.
+  induction ws as [|w ws IH]; intros [|w' ws'] H H' E; cbn [key_tail flat_map app] in E;
+    try discriminate; [reflexivity|].
+  fold (key_tail ws) in E. fold (key_tail ws') in E. injection E as E.
+  inversion H as [|? ? Hw Hws]; inversion H' as [|? ? Hw' Hws']; subst.
+  destruct (split_at_space _ _ _ _ Hw Hw' (key_tail_shape ws) (key_tail_shape ws') E) as [E1 E2].
+  cbn [map]. rewrite E1, (IH ws' Hws Hws' E2). reflexivity.
+Qed.
+
+Theorem name_key_injective : forall w ws w' ws',
+  Forall (fun x => nosp (to_lowercase x)) (w :: ws) ->
+  Forall (fun x => nosp (to_lowercase x)) (w' :: ws') ->
+  name_key (w :: ws) = name_key (w' :: ws') ->
+  map to_lowercase (w :: ws) = map to_lowercase (w' :: ws').
+Proof.
+  intros w ws w' ws' H H' E. cbn [name_key] in E.
+  inversion H as [|? ? Hw Hws]; inversion H' as [|? ? Hw' Hws']; subst.
+  destruct (split_at_space _ _ _ _ Hw Hw' (key_tail_shape ws) (key_tail_shape ws') E) as [E1 E2].
+  cbn [map]. rewrite E1, (key_tail_inj ws ws' Hws Hws' E2). reflexivity.
+Qed.
+
+(* lower-casing never produces a space: ASCII by case analysis, the rest by a check of the
+   regenerated Unicode table *)
+Lemma lower_char_nosp (c : N) : c <> 32%N -> ~ In 32%N (lower_char c).
+Proof.
+  intros Hc. unfold lower_char. destruct (N.ltb c 128) eqn:E.
+  - destruct (andb (N.leb 65 c) (N.leb c 90)) eqn:E2.
+    + apply andb_true_iff in E2 as [H1 H2]. apply N.leb_le in H1. intros [H|[]]. lia.
+    + intros [H|[]]. congruence.
+  - assert (Htab : forallb (fun kv => negb (existsb (N.eqb 32) (snd kv))) UnicodeTables.lower_table = true)
+      by (vm_compute; reflexivity).
+    destruct (nlookup c UnicodeTables.lower_table) as [v|] eqn:El.
+    + assert (Hin : In (c, v) UnicodeTables.lower_table).
+      { clear Htab. revert El. induction UnicodeTables.lower_table as [|[k0 v0] r IH]; cbn [nlookup]; [discriminate|].
+        destruct (N.eqb c k0) eqn:Ek.
+        - apply N.eqb_eq in Ek. subst. intro H. injection H as ->. left. reflexivity.
+        - destruct (N.ltb c k0); [discriminate|]. intro H. right. apply IH, H. }
+      rewrite forallb_forall in Htab. specialize (Htab _ Hin). cbn [snd] in Htab.
+      intro H32. apply negb_true_iff in Htab.
+      assert (existsb (N.eqb 32) v = true) by (apply existsb_exists; exists 32%N; split; [exact H32|reflexivity]).
+      congruence.
+    + intros [H|[]]. congruence.
+Qed.
+
+Lemma to_lowercase_nosp (x : str) : nosp x -> nosp (to_lowercase x).
+Proof.
+  unfold nosp, to_lowercase. induction x as [|c x IH]; intro H; cbn [flat_map]; [exact H|].
+  intro Hin. apply in_app_or in Hin as [Hin|Hin].
+  - apply (lower_char_nosp c); [|exact Hin]. intro E. apply H. left. exact E.
+  - apply IH; [|exact Hin]. intro H2. apply H. right. exact H2.
+Qed.
+
+(* two names (non-empty word lists, no space inside a word) with the same key are the same
+   name up to letter case *)
+Theorem distinct_names_distinct_keys : forall w ws w' ws',
+  Forall nosp (w :: ws) -> Forall nosp (w' :: ws') ->
+  name_key (w :: ws) = name_key (w' :: ws') ->
+  map to_lowercase (w :: ws) = map to_lowercase (w' :: ws').
+Proof.
+  intros w ws w' ws' H H'. apply name_key_injective;
+    (eapply Forall_impl; [|eassumption]); intros a Ha; apply to_lowercase_nosp, Ha.
 Qed.
 
 (* ---- 4.2 letter case: the key is lower-cased, and token comparison is case-insensitive on
    both sides, so neither the case of the definition nor that of the use matters ---- *)
 Theorem name_key_ci : forall ws ws',
-  to_lowercase (concat_str ws) = to_lowercase (concat_str ws') -> name_key ws = name_key ws'.
-Proof. intros ws ws' H. exact H. Qed.
+  map to_lowercase ws = map to_lowercase ws' -> name_key ws = name_key ws'.
+Proof.
+  assert (Ht : forall ws ws', map to_lowercase ws = map to_lowercase ws' -> key_tail ws = key_tail ws').
+  { induction ws as [|w ws IH]; intros [|w' ws'] H; cbn [map] in H; try discriminate; [reflexivity|].
+    injection H as H1 H2. cbn [key_tail flat_map]. fold (key_tail ws). fold (key_tail ws').
+    rewrite H1, (IH ws' H2). reflexivity. }
+  intros [|w ws] [|w' ws'] H; cbn [map] in H; try discriminate; [reflexivity|].
+  injection H as H1 H2. cbn [name_key]. rewrite H1, (Ht ws ws' H2). reflexivity.
+Qed.
 
 Lemma ci_eqb_lower_r x a a' : to_lowercase a = to_lowercase a' -> ci_eqb x a = ci_eqb x a'.
 Proof. intro H. unfold ci_eqb. rewrite H. reflexivity. Qed.
@@ -822,94 +881,36 @@ End WithNum.
 Section Lines.
 Context {F : Type} {NF : Num F}.
 
-(* ---- 5.1 the parser builds assignment-free trees below the top ---- *)
-Definition res_pure (r : @pres F * list (token F)) : Prop :=
-  match fst r with PAst a => pure a = true | _ => True end.
-
-Definition pure_at (f : nat) : Prop :=
-  (forall l ts, res_pure (parse_level f l ts)) /\
-  (forall l ts, res_pure (parse_sub f l ts)) /\
-  (forall l lft ts, pure lft = true -> res_pure (binary_loop f l lft ts)) /\
-  (forall l ts, res_pure (right_loop f l ts)) /\
-  (forall ts, res_pure (parse_unary f ts)) /\
-  (forall ts, res_pure (parse_paren f ts)).
-
-Lemma parse_basic_pure (ts : list (token F)) : res_pure (parse_basic ts).
-Proof. destruct ts as [|t r]; [exact I|]. destruct t; exact I || reflexivity. Qed.
-
-Lemma pure_all : forall f, pure_at f.
-Proof.
-  induction f as [|f (H1 & H2 & H3 & H4 & H5 & H6)].
-  - repeat split; intros; exact I.
-  - unfold pure_at, res_pure in *. repeat split.
-    + intros l ts. rewrite parse_level_S. specialize (H2 l ts).
-      destruct (parse_sub f l ts) as [[a|m|] r]; cbn [fst] in *; try exact I.
-      destruct a; try (apply H3; exact H2); reflexivity.
-    + intros l ts. rewrite parse_sub_S. destruct l; [apply H1|apply H1|apply H5].
-    + intros l lft ts Hl. rewrite binary_loop_S.
-      destruct (match_operator (level_ops l) ts) as [op|]; [|exact Hl].
-      specialize (H4 l (tl ts)).
-      destruct (right_loop f l (tl ts)) as [[a|m|] rest]; cbn [fst] in *; try exact I.
-      apply H3. cbn [pure]. rewrite Hl, H4. reflexivity.
-    + intros l ts. rewrite right_loop_S. specialize (H2 l ts).
-      destruct (parse_sub f l ts) as [[a|m|] r]; cbn [fst] in *; try exact I.
-      destruct a; try exact H2. apply H4.
-    + intros ts. rewrite parse_unary_S.
-      destruct (match_operator [OP_MINUS; OP_PLUS] ts) as [op|].
-      * destruct (tl ts) as [|t r'] eqn:Etl; [exact I|].
-        destruct t; try exact I; try reflexivity.
-        destruct (N.eqb c OP_LP); [|exact I].
-        specialize (H6 (TOperator c :: r')).
-        destruct (parse_paren f (TOperator c :: r')) as [[a|m|] rest]; cbn [fst] in *; try exact I.
-        exact H6.
-      * destruct (match_operator [OP_LP] ts); [apply H6|apply parse_basic_pure].
-    + intros ts. rewrite parse_paren_S. specialize (H1 LAddSub (tl ts)).
-      destruct (parse_level f LAddSub (tl ts)) as [[a|m|] r]; cbn [fst] in *; try exact I.
-      destruct a; try exact I;
-        (destruct (match_operator [OP_RP] r); [exact H1|exact I]).
-Qed.
-
-Lemma parse_level_pure f l (ts : list (token F)) a r :
-  parse_level f l ts = (PAst a, r) -> pure a = true.
-Proof.
-  intro H. destruct (pure_all f) as (H1 & _). specialize (H1 l ts). unfold res_pure in H1.
-  rewrite H in H1. exact H1.
-Qed.
-
-(* what Parser.parse can return, for EVERY token list: an assignment-free tree and the
-   session as it was, or `AAssignment name e` with an assignment-free e and the session with
-   the name registered *)
+(* ---- 5.1 what Parser.parse returns, for EVERY token list: the session as it was (the parser
+   never touches it) and a line tree: an assignment-free tree, or `AAssignment name toks e`
+   with an assignment-free e (ParserPure.parse_level_pure) ---- *)
 Theorem parse_shape : forall (tokens : list (token F)) vs r vs',
   parse tokens vs = (r, vs') ->
-  (vs' = vs /\ match r with PAst a => pure a = true | _ => True end) \/
-  (exists name toks e, r = PAst (AAssignment name e) /\ pure e = true /\
-                       vs' = register name toks vs).
+  vs' = vs /\ match r with PAst a => line_ast a = true | _ => True end.
 Proof.
   intros tokens vs r vs' H. unfold parse, parse_assignment in H.
   assert (Hplain : forall rest,
              (fst (parse_level (parse_fuel tokens) LAddSub rest), vs) = (r, vs') ->
-             vs' = vs /\ match r with PAst a => pure a = true | _ => True end).
+             vs' = vs /\ match r with PAst a => line_ast a = true | _ => True end).
   { intros rest E. injection E as <- <-. split; [reflexivity|].
     destruct (parse_level (parse_fuel tokens) LAddSub rest) as [[a|m|] i] eqn:E; cbn [fst]; try exact I.
-    exact (parse_level_pure _ _ _ _ _ E). }
-  destruct (find_index (is_op OP_EQ) tokens) as [k|]; [|left; exact (Hplain _ H)].
-  destruct (nth_opt tokens 0) as [t0|]; [|left; exact (Hplain _ H)].
+    pose proof (parse_level_pure _ _ _ _ _ E) as Hp. destruct a; try exact Hp; discriminate. }
+  destruct (find_index (is_op OP_EQ) tokens) as [k|]; [|exact (Hplain _ H)].
+  destruct (nth_opt tokens 0) as [t0|]; [|exact (Hplain _ H)].
   destruct (assign_name_loop (S (length tokens)) tokens vs 0 (to_lowercase (token_to_string vs t0)))
     as [idx name].
   destruct (parse_level (parse_fuel tokens) LAddSub (skipn idx tokens)) as [[a|m|] i] eqn:E.
   - pose proof (parse_level_pure _ _ _ _ _ E) as Hp.
-    destruct a; try (right; exists name, (firstn (Nat.pred idx) tokens); eexists;
-                     injection H as <- <-; split; [reflexivity|split; [exact Hp|reflexivity]]).
-    left. exact (Hplain _ H).
-  - left. injection H as <- <-. split; [reflexivity|exact I].
-  - left. injection H as <- <-. split; [reflexivity|exact I].
+    destruct a; try (injection H as <- <-; split; [reflexivity|exact Hp]).
+    exact (Hplain _ H).
+  - injection H as <- <-. split; [reflexivity|exact I].
+  - injection H as <- <-. split; [reflexivity|exact I].
 Qed.
 
 (* ---- 5.2 one line of text through Api.execute_text ---- *)
 Variable lx : lexdata.
 Variable ck : clock.
 
-(* [touches vs vs' name]: at most the variable [name] differs between vs and vs' *)
 Definition only_differs_at (vs vs' : vars F) (name : str) : Prop :=
   forall k, k <> name -> assoc k vs' = assoc k vs.
 
@@ -919,92 +920,85 @@ Definition line_failed (o : option (line_obs (F:=F))) : Prop :=
   | Some obs => match lo_result obs with LErr _ => True | LOk _ _ => False end
   end.
 
+(* the session after a line: unchanged, or exactly one [store] of the line's value *)
+Theorem line_effect : forall cfg lang vs line o vs',
+  execute_text lx ck cfg lang vs line = Ok (o, vs') ->
+  vs' = vs \/
+  exists obs out v name toks, o = Some obs /\ lo_result obs = LOk out v /\ vs' = store name toks v vs.
+Proof.
+  intros cfg lang vs line o vs' H. unfold execute_text in H.
+  destruct line as [|c0 l0]; [injection H as <- <-; left; reflexivity|].
+  destruct (tokinize lx ck cfg lang vs (c0 :: l0)) as [[st tokens]|s0]; cbn [bind] in H; [|discriminate].
+  destruct (ts_infos st) as [|i0 infos]; [injection H as <- <-; left; reflexivity|].
+  destruct (parse tokens vs) as [r vs1] eqn:Ep.
+  destruct (parse_shape tokens vs r vs1 Ep) as [-> Hr].
+  destruct r as [a|m|]; [|injection H as <- <-; left; reflexivity|discriminate].
+  destruct (execute_ast (basic_execute lx ck) cfg vs a) as [[r2 vs2]|s2] eqn:Ee; cbn [bind] in H; [|discriminate].
+  destruct (exec_line_frame (basic_execute lx ck) cfg vs a r2 vs2 Hr Ee) as (_ & _ & Hv).
+  destruct r2 as [v|m].
+  - destruct (format_result cfg lang (ck_year ck) v) as [out|]; cbn [bind] in H; [|discriminate].
+    injection H as <- <-.
+    destruct a; try (left; exact Hv).
+    right. do 5 eexists. split; [reflexivity|]. split; [reflexivity|exact Hv].
+  - injection H as <- <-. left. exact Hv.
+Qed.
+
 (* every line changes at most one variable *)
 Theorem line_changes_one_name : forall cfg lang vs line o vs',
   execute_text lx ck cfg lang vs line = Ok (o, vs') ->
   exists name, only_differs_at vs vs' name.
 Proof.
-  intros cfg lang vs line o vs' H. unfold execute_text in H.
-  destruct line as [|c0 l0]; [injection H as <- <-; exists []; intros k _; reflexivity|].
-  destruct (tokinize lx ck cfg lang vs (c0 :: l0)) as [[st tokens]|s0]; cbn [bind] in H; [|discriminate].
-  destruct (ts_infos st) as [|i0 infos]; [injection H as <- <-; exists []; intros k _; reflexivity|].
-  destruct (parse tokens vs) as [r vs1] eqn:Ep.
-  destruct (parse_shape tokens vs r vs1 Ep) as [[-> Hr]|(name & toks & e & -> & Hp & ->)].
-  - destruct r as [a|m|]; [|injection H as <- <-; exists []; intros k _; reflexivity|discriminate].
-    destruct (execute_ast (basic_execute lx ck) cfg vs a) as [[r2 vs2]|s2] eqn:Ee; cbn [bind] in H; [|discriminate].
-    assert (Hl : line_ast a = true) by (destruct a; try exact Hr; discriminate).
-    destruct (exec_line_frame (basic_execute lx ck) cfg vs a r2 vs2 Hl Ee) as (_ & _ & Hv).
-    assert (vs2 = vs).
-    { destruct r2; [|exact Hv]. destruct a; try exact Hv; discriminate. }
-    subst vs2. exists []. intros k _.
-    destruct r2; [destruct (format_result cfg lang (ck_year ck) a0); cbn [bind] in H; [|discriminate]|];
-      injection H as <- <-; reflexivity.
-  - destruct (execute_ast (basic_execute lx ck) cfg (register name toks vs) (AAssignment name e))
-      as [[r2 vs2]|s2] eqn:Ee; cbn [bind] in H; [|discriminate].
-    destruct (exec_line_frame (basic_execute lx ck) cfg (register name toks vs) (AAssignment name e) r2 vs2 Hp Ee) as (Hfr & _ & _).
-    exists name. intros k Hk.
-    assert (Hvs2 : assoc k vs2 = assoc k vs).
-    { rewrite (Hfr k) by (cbn [assigned]; congruence). apply register_other, Hk. }
-    destruct r2; [destruct (format_result cfg lang (ck_year ck) a); cbn [bind] in H; [|discriminate]|];
-      injection H as <- <-; exact Hvs2.
+  intros cfg lang vs line o vs' H.
+  destruct (line_effect cfg lang vs line o vs' H) as [->|(obs & out & v & name & toks & _ & _ & ->)].
+  - exists []. intros k _. reflexivity.
+  - exists name. intros k Hk. apply store_other, Hk.
 Qed.
 
-(* a line that fails (error or nothing to show) leaves every existing variable exactly as it
-   was: either the session is untouched, or a NEW name was registered without a value *)
+(* a line that fails (error or nothing to show) leaves the session EXACTLY as it was *)
 Theorem failed_line_preserves_bindings : forall cfg lang vs line o vs',
-  execute_text lx ck cfg lang vs line = Ok (o, vs') -> line_failed o ->
-  (vs' = vs \/ exists name toks, assoc_mem name vs = false /\
-                 vs' = assoc_insert name {| v_tokens := toks; v_data := ANone |} vs) /\
-  (forall k, assoc_mem k vs = true -> assoc k vs' = assoc k vs).
+  execute_text lx ck cfg lang vs line = Ok (o, vs') -> line_failed o -> vs' = vs.
 Proof.
   intros cfg lang vs line o vs' H Hf.
-  assert (Hgoal : vs' = vs \/ exists name toks, assoc_mem name vs = false /\
-                 vs' = assoc_insert name {| v_tokens := toks; v_data := ANone |} vs).
-  { unfold execute_text in H.
-    destruct line as [|c0 l0]; [injection H as <- <-; left; reflexivity|].
-    destruct (tokinize lx ck cfg lang vs (c0 :: l0)) as [[st tokens]|s0]; cbn [bind] in H; [|discriminate].
-    destruct (ts_infos st) as [|i0 infos]; [injection H as <- <-; left; reflexivity|].
-    destruct (parse tokens vs) as [r vs1] eqn:Ep.
-    destruct (parse_shape tokens vs r vs1 Ep) as [[-> Hr]|(name & toks & e & -> & Hp & ->)].
-    - destruct r as [a|m|]; [|injection H as <- <-; left; reflexivity|discriminate].
-      destruct (execute_ast (basic_execute lx ck) cfg vs a) as [[r2 vs2]|s2] eqn:Ee; cbn [bind] in H; [|discriminate].
-      assert (Hl : line_ast a = true) by (destruct a; try exact Hr; discriminate).
-      destruct (exec_line_frame (basic_execute lx ck) cfg vs a r2 vs2 Hl Ee) as (_ & _ & Hv).
-      assert (vs2 = vs).
-      { destruct r2; [|exact Hv]. destruct a; try exact Hv; discriminate. }
-      subst vs2. left.
-      destruct r2; [destruct (format_result cfg lang (ck_year ck) a0); cbn [bind] in H; [|discriminate]|];
-        injection H as <- <-; reflexivity.
-    - destruct (execute_ast (basic_execute lx ck) cfg (register name toks vs) (AAssignment name e))
-        as [[r2 vs2]|s2] eqn:Ee; cbn [bind] in H; [|discriminate].
-      destruct (exec_line_frame (basic_execute lx ck) cfg (register name toks vs) (AAssignment name e) r2 vs2 Hp Ee) as (_ & _ & Hv).
-      destruct r2 as [v|m].
-      + destruct (format_result cfg lang (ck_year ck) v); cbn [bind] in H; [|discriminate].
-        injection H as <- <-. cbn [line_failed lo_result] in Hf. contradiction.
-      + injection H as <- <-. subst vs2. unfold register.
-        destruct (assoc_mem name vs) eqn:Em; [left; reflexivity|].
-        right. exists name, toks. split; [exact Em|reflexivity]. }
-  split; [exact Hgoal|]. intros k Hk.
-  destruct Hgoal as [->|(name & toks & Hn & ->)]; [reflexivity|].
-  apply assoc_insert_other. intro E. subst. congruence.
+  destruct (line_effect cfg lang vs line o vs' H) as [->|(obs & out & v & name & toks & -> & Hr & _)];
+    [reflexivity|].
+  cbn [line_failed] in Hf. rewrite Hr in Hf. contradiction.
 Qed.
 
 (* ---- 5.3 whole texts (SessionLemmas: execute / execute_session = eval_lines) ---- *)
-(* failing lines, however many, never change an existing binding *)
+(* failing lines, however many, leave the session exactly as it was *)
 Theorem failed_lines_preserve_bindings : forall cfg lang lines vs os vs',
-  eval_lines lx ck cfg lang vs lines = Ok (os, vs') -> Forall line_failed os ->
-  forall k, assoc_mem k vs = true -> assoc k vs' = assoc k vs.
+  eval_lines lx ck cfg lang vs lines = Ok (os, vs') -> Forall line_failed os -> vs' = vs.
 Proof.
-  intros cfg lang lines. induction lines as [|l rest IH]; intros vs os vs' H Hf k Hk;
+  intros cfg lang lines. induction lines as [|l rest IH]; intros vs os vs' H Hf;
     cbn [eval_lines] in H.
   - injection H as <- <-. reflexivity.
   - destruct (execute_text lx ck cfg lang vs l) as [[o v1]|s0] eqn:E1; [|discriminate].
     destruct (eval_lines lx ck cfg lang v1 rest) as [[os1 v2]|s1] eqn:E2; [|discriminate].
     injection H as <- <-. inversion Hf as [|? ? Ho Hos]; subst.
-    destruct (failed_line_preserves_bindings cfg lang vs l o v1 E1 Ho) as [_ H1].
-    rewrite (IH v1 os1 v2 E2 Hos k).
-    + apply H1, Hk.
-    + unfold assoc_mem in *. rewrite (H1 k Hk). exact Hk.
+    rewrite (IH v1 os1 v2 E2 Hos). exact (failed_line_preserves_bindings cfg lang vs l o v1 E1 Ho).
+Qed.
+
+(* a failing line is without effect on the rest of the text: removing it changes neither the
+   results of the other lines nor the final session *)
+Theorem failed_line_removable : forall cfg lang l1 l l2 vs os vs',
+  eval_lines lx ck cfg lang vs (l1 ++ l :: l2) = Ok (os, vs') ->
+  (exists o, nth_error os (length l1) = Some o /\ line_failed o) ->
+  eval_lines lx ck cfg lang vs (l1 ++ l2) = Ok (firstn (length l1) os ++ skipn (S (length l1)) os, vs').
+Proof.
+  intros cfg lang l1 l l2 vs os vs' H (o & Hn & Hf).
+  rewrite eval_lines_app in H. rewrite eval_lines_app.
+  destruct (eval_lines lx ck cfg lang vs l1) as [[os1 v1]|s1] eqn:E1; [|discriminate].
+  pose proof (eval_lines_length lx ck _ _ _ _ _ _ E1) as Hl1.
+  cbn [eval_lines] in H.
+  destruct (execute_text lx ck cfg lang v1 l) as [[o' v2]|s2] eqn:E2; [|discriminate].
+  destruct (eval_lines lx ck cfg lang v2 l2) as [[os2 v3]|s3] eqn:E3; [|discriminate].
+  injection H as <- <-.
+  rewrite nth_error_app2 in Hn by lia. rewrite Hl1, Nat.sub_diag in Hn. cbn [nth_error] in Hn.
+  injection Hn as ->.
+  rewrite (failed_line_preserves_bindings cfg lang v1 l o v2 E2 Hf) in E3. rewrite E3.
+  rewrite <- Hl1. rewrite firstn_app, firstn_all, Nat.sub_diag. cbn [firstn]. rewrite app_nil_r.
+  rewrite skipn_app. rewrite skipn_all2 by lia.
+  replace (S (length os1) - length os1) with 1 by lia. reflexivity.
 Qed.
 
 End Lines.
@@ -1042,6 +1036,7 @@ Definition err (x : string) : option (bool * str) := Some (false, s x).
 
 Local Open Scope string_scope.
 
+
 Theorem examples :
   outs ["x = 2"; "y = x"; "x = 7"; "y"] = [ok "2"; ok "2"; ok "7"; ok "2"] /\
   outs ["a b = 3"; "a = 1"; "a b + a"] = [ok "3"; ok "1"; ok "4"] /\
@@ -1051,19 +1046,23 @@ Theorem examples :
     = [ok "3"; err "Unknown calculation"; ok "3"; err "No more token"; ok "4"].
 Proof. vm_compute. repeat split; reflexivity. Qed.
 
-(* the two listed defects, reproduced by the model *)
 (* formerly a listed defect (fixed in /repo 542d9d0): an occurrence overlapping a failed partial
    match is found *)
 Theorem overlap_example :
   outs ["a b = 3"; "foo a b"; "a a b"; "a b c = 5"; "a a b a b c"] = [ok "3"; ok "3"; ok "3"; ok "5"; ok "8"].
 Proof. vm_compute. reflexivity. Qed.
 
-Theorem ghost_refuted :
-  outs ["a = 2"; "a b + 1"] = [ok "2"; ok "3"] /\
-  outs ["a = 2"; "a b = 3 hours * 2 hours"; "a b + 1"]
-    = [ok "2"; err "Unknown calculation"; err "Unknown calculation"].
+(* formerly a listed defect (C03-ghost-variable): a failing assignment of a new name leaves no
+   variable behind; the later `a b + 1` is `a` + 1 again, and a failed first assignment of z
+   leaves later uses of z plain text *)
+Theorem ghost_repaired :
+  outs ["a = 2"; "a b = 3 hours * 2 hours"; "a b + 1"] = [ok "2"; err "Unknown calculation"; ok "3"] /\
+  outs ["z = 3 hours * 2 hours"; "z + 1"; "z = 4"; "z + 1"]
+    = [err "Unknown calculation"; ok "1"; ok "4"; ok "5"].
 Proof. vm_compute. split; reflexivity. Qed.
 
-Theorem collision_refuted :
-  outs ["ab = 1"; "a b = 2"; "ab"; "a b"] = [ok "1"; ok "2"; ok "2"; err "No more token"].
-Proof. vm_compute. reflexivity. Qed.
+(* formerly a listed defect (C03-name-key-collision): `ab` and `a b` are different variables *)
+Theorem collision_repaired :
+  outs ["ab = 1"; "a b = 2"; "ab"; "a b"] = [ok "1"; ok "2"; ok "1"; ok "2"] /\
+  outs ["a bc = 1"; "ab c = 2"; "a bc + ab c"] = [ok "1"; ok "2"; ok "3"].
+Proof. vm_compute. split; reflexivity. Qed.
